@@ -14,6 +14,8 @@ package main
 // ([pair_ok]: the second starts from [next_request] of a final state of the first that matches the first's observation).
 
 import (
+	"sync/atomic"
+	"unsafe"
 	"context"
 	"encoding/json"
 	"fmt"
@@ -64,6 +66,32 @@ func dirtyFields(ptr interface{}) (givenBack bool, dirty []string) {
 	return true, dirty
 }
 
+// Timer.Stop of the proxy's utils.Timer is a CAS on its `stopped` word followed by time.Timer.Stop: with the word already set, the
+// cleanUp of the request leaves the runtime timer running - exactly what happens when Stop comes after the runtime has started
+// the timer function.  Returns how many armed timers were treated.
+func neutraliseTimerStop(ds interface{}) (n int) {
+	defer func() { recover() }()
+	v := reflect.ValueOf(ds)
+	if v.Kind() != reflect.Ptr || v.IsNil() {
+		return 0
+	}
+	e := v.Elem()
+	for _, name := range []string{"perRetryTimer", "responseTimer"} {
+		f := e.FieldByName(name)
+		if !f.IsValid() || f.Kind() != reflect.Ptr || f.IsNil() {
+			continue
+		}
+		t := reflect.NewAt(f.Type().Elem(), unsafe.Pointer(f.Pointer())).Elem()
+		st := t.FieldByName("stopped")
+		if !st.IsValid() || st.Kind() != reflect.Int32 {
+			continue
+		}
+		atomic.StoreInt32((*int32)(unsafe.Pointer(st.UnsafeAddr())), 1)
+		n++
+	}
+	return n
+}
+
 func runSeq(j *seqJob) {
 	n := len(j.specs)
 	preps := make([]*prepared, n)
@@ -73,6 +101,7 @@ func runSeq(j *seqJob) {
 	j.res = make([]*Result, n)
 	j.recycled = make([]bool, n)
 	j.dirty = make([][]string, n)
+	recvs := make([]atomic.Value, n)
 	start := make([]chan struct{}, n)
 	done := make([]chan struct{}, n)
 	for k := range j.specs {
@@ -107,6 +136,24 @@ func runSeq(j *seqJob) {
 			h := p.h
 			<-start[k]
 			var wg sync.WaitGroup
+			if sp.KeepTimers {
+				wg.Add(1)
+				go func() {
+					defer wg.Done()
+					// once the request has been sent upstream its timers are armed
+					deadline := time.Now().Add(12 * time.Millisecond)
+					for time.Now().Before(deadline) {
+						if h.up(0) != nil {
+							break
+						}
+						time.Sleep(200 * time.Microsecond)
+					}
+					time.Sleep(3 * time.Millisecond)
+					if r := recvs[k].Load(); r != nil {
+						h.add(Rec{Kind: "env.keeptimers", K: neutraliseTimerStop(r)})
+					}
+				}()
+			}
 			last := 0
 			for i := range sp.Events {
 				e := sp.Events[i]
@@ -215,6 +262,7 @@ func runSeq(j *seqJob) {
 					}
 				}()
 				receiver := p.conn.ssc.cb.NewStreamDetect(sctx, sender, nil)
+				recvs[k].Store(receiver)
 				addr := fmt.Sprintf("%p", receiver)
 				j.recycled[k] = prevAddr != "" && addr == prevAddr
 				prevAddr, prevPtr = addr, receiver
@@ -282,6 +330,22 @@ func genSeqs(run *Run) [][]*Spec {
 		for _, b := range seconds {
 			out = append(out, []*Spec{a, b})
 		}
+	}
+	// the LATE TIMER: request A's per-try / global timer functions run after A has ended and B has taken A's object (Timer.Stop too
+	// late), in every phase of B: while a receive filter of B is busy (no upstream request yet), while B waits for its upstream,
+	// while B's response is held by a send filter, after B has ended
+	for _, try := range []int{30, 45, 70, 100} {
+		a := &Spec{Route: "forward", NHosts: 2, RouteGlobalMs: 3 * slot, RouteTryMs: try, RetryOn: true, NumRetries: 1, KeepTimers: true,
+			Events: []Event{{AtMs: 15, Kind: "upresp", K: 0, Status: 200}}}
+		bs := []*Spec{
+			{Route: "forward", NHosts: 2, RouteGlobalMs: 400, Events: []Event{{AtMs: 70, Kind: "upresp", K: 0, Status: 200}}},
+			{Route: "forward", NHosts: 2, RouteGlobalMs: 400, Filters: []FilterSpec{{Phase: 0, DelayMs: 25}}, Events: []Event{{AtMs: 70, Kind: "upresp", K: 0, Status: 200, Data: true}}},
+			{Route: "forward", NHosts: 2, RouteGlobalMs: 400, Filters: []FilterSpec{{Send: true, DelayMs: 30}}, Events: []Event{{AtMs: 40, Kind: "upresp", K: 0, Status: 200}}},
+		}
+		for _, b := range bs {
+			out = append(out, []*Spec{a, b})
+		}
+		out = append(out, []*Spec{a, bs[0], ok200(false, false)})
 	}
 	// longer sequences: the object goes round several times
 	r := run.R
@@ -420,6 +484,9 @@ func seqPart(run *Run, idBase int, finder func(*Run, *histJob)) int {
 			}
 			if !late(a) && obsKey(r) != obsKey(a) {
 				replay["observed_alone"] = a.Rec
+				if k > 0 && j.specs[k-1].KeepTimers && run.Prop == "C02" {
+					run.Fail("C02:stale-timer-of-previous-request-acts-on-recycled-stream", fmt.Sprintf("request %d of the sequence ran on the recycled object of request %d (%v), whose timer functions ran after it had ended (Timer.Stop too late): it was observed differently from the same request run alone: in the sequence %s; alone %s - the time-out of the other request was executed on it", k, k-1, j.recycled[k], shortOutcome(r), shortOutcome(a)), replay)
+				}
 				run.Fail("C03:outcome-depends-on-previous-request", fmt.Sprintf("request %d of the sequence (on the recycled object of its predecessor: %v) was observed differently from the same request run alone: in the sequence %s; alone %s", k, j.recycled[k], shortOutcome(r), shortOutcome(a)), replay)
 			}
 			finder(run, &histJob{id: j.id + k, spec: sp, res: r})
